@@ -248,7 +248,7 @@ func runCorpus(r *core.Run) {
 // ---------- patterns ----------
 
 func runPatterns(r *core.Run) {
-	n := r.N(250, 2500)
+	n := r.N(250, 2000)
 	unparsedPatterns := 0
 	for i := 0; i < n; i++ {
 		rnd := r.Rand.Fork()
@@ -340,7 +340,7 @@ func runPatterns(r *core.Run) {
 // ---------- chains ----------
 
 func runChains(r *core.Run) {
-	n := r.N(220, 2200)
+	n := r.N(220, 1800)
 	for i := 0; i < n; i++ {
 		rnd := r.Rand.Fork()
 		s := genStatement(rnd)
@@ -420,7 +420,7 @@ func runChains(r *core.Run) {
 // ---------- table rules ----------
 
 func runTables(r *core.Run) {
-	n := r.N(200, 2000)
+	n := r.N(200, 1600)
 	for i := 0; i < n; i++ {
 		rnd := r.Rand.Fork()
 		s := genStatement(rnd)
